@@ -85,6 +85,23 @@ CHECKS = {
         'and on unbounded ints uninterpreted with range axioms; x % 2^k '
         '(k >= 16) abstracted in range jobs; retry loops bounded to one retry; '
         'known findings F5, F7'),
+    'C09': (
+        True, '5/C09',
+        'symbolic execution of HiddenNumberParams with a symbolic group '
+        'order, TransformOrderLen / ECDSAValues / PublicPoint on symbolic '
+        'byte strings and Int2Bytes/Bytes2Int (pysym); z3 decides '
+        'k == a + b*d (mod n) via an explicit quotient and the RFC 6979 '
+        'bits2int equalities',
+        'Bounded symbolic model checking: the nonce relation for EVERY group '
+        'order n > 2 and all r, s, d, k in [1, n-1] (unbounded integers), '
+        'also for two curves used one after the other; bits2int for every '
+        'named curve, every hash value and 21 (70) hash byte lengths 0..66; '
+        'ECDSAValues/PublicPoint on arbitrary byte strings incl. leading '
+        'zeros; int/bytes round trips for all x < 2^40 (2^72) and all byte '
+        'strings up to 4 (6) bytes.',
+        'gmpy.invert by contract (inverse exists: n prime assumed); '
+        'int.from_bytes/to_bytes modelled on lists of byte terms; fake '
+        'protobuf messages generated from paranoid.proto'),
 }
 
 NOT_APPLICABLE = {
